@@ -108,6 +108,15 @@ class C02(Check):
                 La, Lb = sum(len(m) // 2 for m in a), sum(len(m) // 2 for m in b)
                 cases.append({"side": side, "msgs": a, "cuts": sorted(set([3, 9, La // 2, La - 1]) & set(range(1, La))),
                               "other": {"msgs": b, "cuts": sorted(set([1, 8, 11, Lb // 3, Lb - 2]) & set(range(1, Lb)))}})
+            # the handler table is switched by the k-th message: whole stream in one read, one message per read, cuts inside the
+            # switching message and just behind it
+            for k in range(6):
+                a = self._stream(rng, 5)
+                La = sum(len(m) // 2 for m in a)
+                e = [sum(len(m) // 2 for m in a[:j + 1]) for j in range(len(a))]
+                for sw in (0, 1, 3, 4):
+                    for cuts in ([], e[:-1], [e[sw] - 1], [c for c in (e[sw] + 1, e[sw] + 8) if c < La], [e[0] // 2, La - 1]):
+                        cases.append({"side": side, "msgs": a, "cuts": sorted(set(c for c in cuts if 0 < c < La)), "swap": sw})
             # many complete messages inside ONE read (a burst): 70, 130, 300 and 700 short messages without any cut,
             # and the same bursts followed by a straggler
             tiny = [self.of.ofp_echo_request(xid=i, body=bytes([i & 0xff] * (i % 3))).pack().hex() for i in range(700)]
@@ -129,6 +138,7 @@ class C02(Check):
             if rng.random() < 0.25:
                 m2 = self._stream(rng, rng.choice([1, 2, 5, rng.randint(1, 20)])); L2 = sum(len(m) // 2 for m in m2)
                 case["other"] = {"msgs": m2, "cuts": sorted(rng.randint(1, max(1, L2 - 1)) for _ in range(rng.randint(0, 8)))}
+            if rng.random() < 0.3: case["swap"] = rng.randint(0, len(msgs) - 1)
             yield case
         if tier == "thorough":                                      # every 2-cut of short streams
             for _ in range(6):
@@ -143,7 +153,7 @@ class C02(Check):
     def impl(self, case):
         stream = b"".join(bytes.fromhex(m) for m in case["msgs"])
         chunks = segment(stream, case["cuts"], CAP[case["side"]])
-        delivered, counts, last = [], [], [None]
+        delivered, counts, last, tables = [], [], [None], []
         def wrap(u):
             if u is None: return None
             def w(raw, offset=0):
@@ -161,7 +171,14 @@ class C02(Check):
             sock = ScriptSock()
             con = self.of_01.Connection(sock)
             con.unpackers = [wrap(u) for u in con.unpackers]
-            con.handlers = [(lambda c, m: delivered.append(last[0].hex()))] * 256
+            # "swap": the handler of the k-th message REBINDS the connection's handler table (as the end of the handshake does,
+            # of_01._finish_connecting: con.handlers = ...) — every later message, in the same read too, belongs to the new table
+            swap = case.get("swap")
+            def h_new(c, m): delivered.append(last[0].hex()); tables.append(1)
+            def h_old(c, m):
+                delivered.append(last[0].hex()); tables.append(0)
+                if swap is not None and len(delivered) == swap + 1: c.handlers = [h_new] * 256
+            con.handlers = [h_old] * 256
             if oth:
                 osock = ScriptSock(); ocon = self.of_01.Connection(osock)
                 ocon.handlers = [(lambda c, m: odelivered.append(bytes(m.pack()).hex()))] * 256
@@ -194,7 +211,12 @@ class C02(Check):
             w = loop.new_worker(sock)
             ofc = self.OFConnection(w)
             ofc.unpackers = [wrap(u) for u in ofc.unpackers]
-            ofc.set_message_handler(lambda c, m: delivered.append(last[0].hex()))
+            swap = case.get("swap")
+            def h_new(c, m): delivered.append(last[0].hex()); tables.append(1)
+            def h_old(c, m):
+                delivered.append(last[0].hex()); tables.append(0)
+                if swap is not None and len(delivered) == swap + 1: c.set_message_handler(h_new)
+            ofc.set_message_handler(h_old)
             if oth:
                 osock = ScriptSock(); ow = loop.new_worker(osock); oofc = self.OFConnection(ow)
                 oofc.set_message_handler(lambda c, m: odelivered.append(bytes(m.pack()).hex()))
@@ -219,7 +241,7 @@ class C02(Check):
                     ostatus = ofeed(ch)
             buf = bytes(w.receive_buf).hex()
         return {"delivered": delivered, "counts": counts, "buf": buf, "status": status, "chunks": [c.hex() for c in chunks],
-                "other_delivered": odelivered, "other_status": ostatus}
+                "other_delivered": odelivered, "other_status": ostatus, "tables": tables}
 
     def model_request(self, case):
         stream = b"".join(bytes.fromhex(m) for m in case["msgs"])
@@ -241,6 +263,11 @@ class C02(Check):
                 return "companion connection delivered %d messages, sent %d (state shared between connections?)" % (len(obs["other_delivered"]), len(case["other"]["msgs"]))
         if obs["delivered"] != msgs:
             return "delivered %d messages, sent %d (lost/duplicated/merged/reordered)" % (len(obs["delivered"]), len(msgs))
+        if case.get("swap") is not None:
+            want_t = [0 if i <= case["swap"] else 1 for i in range(len(msgs))]
+            if obs["tables"] != want_t:
+                bad = [i for i, (a, b) in enumerate(zip(obs["tables"], want_t)) if a != b]
+                return "message %d after a handler switch was given to the old handler table" % (bad[0] - case["swap"])
         ends, p = [], 0
         for m in msgs:
             p += len(m) // 2; ends.append(p)
